@@ -47,7 +47,7 @@ CLAIMED = {
         'iteration by the matching write, and no run state lives in locals; (5) file-in-sync invariant woven into the symbolic execution of the real run() with the C01 contracts: a ghost '
         'dirty bit per persistent field (set by every assignment and by the modifies clause of every callee, cleared by write, cleared by write_shell_update only for the set proved '
         'equivalent in (2) and only for the shell that was sampled) is clear for every field at every loop boundary and at return once a file exists, and a checkpoint written right '
-        'before a batch is re-entrant (the bound-insertion guard is false in the written state), so the file on disk after k batches is the continuation state after k batches.',
+        'before a batch is re-entrant (the bound-insertion guard is false in the written state), so the file on disk after k batches is the continuation state after k batches. The resume block also re-establishes blobs_dtype whenever blobs exist (add_bound allocates from it).',
    note=TRUST + 'h5py exact + closed world; bounds abstract with the round-trip axiom (C09: proved for every bound class, the emulator inside a NeuralBound assumed); int(str(x)) = x. The final '
         'step "equal continuation state => bit-identical continuation" is the determinism argument of C11 and is not machine-checked; constructor arguments are given again on resume. (5) assumes the file is in sync at entry of run(), n_update >= 1 and n_like_new_bound >= 1; list '
         'mutation through .pop() is not tracked (a full write follows it). Replay/bounded leg: stops through n_like_max at batch boundaries, copies of the checkpoint taken at the start '
@@ -70,7 +70,9 @@ CLAIMED = {
         'the outer ellipsoid; NautilusBound: contains is outer union AND some neural bound (in the shifted frame), serial and pool sampling return exactly n rows that contains() accepts '
         'and that lie in the unit cube (uses the shift inverse law of C16); UnitCubeEllipsoidMixture (column algebra: cube part / ellipsoid part of a point, all three shapes): contains is '
         'the conjunction of the two parts and every sample is contained; Union.split / Union.trim (contracts shared with C13) end with an empty proposal cache and a partition of the '
-        'construction points, so no stale proposal survives a restructuring.',
+        'construction points, so no stale proposal survives a restructuring; Union.compute and NautilusBound.compute establish the class invariants the sampling proofs assume: the outer union '
+        'is built restricted to the unit cube (the default of Union.compute is read from the source), at least one neural bound (one per ellipsoid), a periodic shift exactly when periodic '
+        'parameters are declared, an empty cache with zero counters, and every component holds the one generator handed in.',
    note=TRUST + 'Linear-algebra laws (inverse, Cholesky, quadratic-form scaling, sqrt) and the laws of complementary column sets are axioms; a Gaussian vector is non-zero; pickled worker copies '
         'keep the geometry; emulator row-wise. UnitCubeEllipsoidMixture.compute (dimension-selection loops) and "construction points stay contained after any sequence of splits" on real '
         'objects have no proof here: bounded runtime check (check_c07.py).',
@@ -84,7 +86,7 @@ CLAIMED = {
         'logsumexp(log_v_all) + log(1 - n_reject/n_sample) after a lazy first draw that leaves existing counters untouched (U6); NautilusBound: serial rounds add 1000 / 1000 - #accepted '
         '(N1), the pool path adds every worker\'s counters of both levels and all its rows (N2), log_v = outer log_v + log(1 - n_reject/n_sample) (N3); UnitCubeEllipsoidMixture: the sample is '
         'the join of a cube-part draw and an ellipsoid-part draw (M1) and log_v is the ellipsoid volume, the cube part having volume one (M2). Checkpoint round trip of the counters and '
-        'geometry is C09.',
+        'geometry is C09. Union.compute / split / trim (contracts shared with C13) end with an empty cache and zero counters, so the accepted fraction in log_v never stems from an earlier set of members.',
    note=TRUST + 'NOT machine-checked: the probabilistic lemma (volume-proportional component choice + acceptance 1/multiplicity => uniform on the union; accepted fraction is an unbiased estimate of the '
         'volume ratio; z/|z| u^(1/d) uniform in the ball), independence and distribution of numpy Generator draws, log 2 + lnGamma(3/2) = (1/2) log pi. The worker side of the pool (_reset_and_sample) is '
         'not under contract here. Bounded stand-in (never counted as proved; runs in both tiers as replay leg and as the bounded leg): fixed-seed two-sample '
@@ -107,8 +109,10 @@ CLAIMED = {
    text='Deductive proof on the real AST of Sampler.sample_shell / add_samples / run: every batch has exactly n_batch rows (loop exit + invariant), every row handed to '
         'evaluate_likelihood lies in the unit cube (call precondition discharged at the call site), the counter grows by exactly n_batch per loop iteration and each '
         'iteration starts only with n_like < n_like_max (loop step obligations), hence the total stays below n_like_max + n_batch and is unchanged when the limit was '
-        'already reached; run() returns exactly the success predicate of its exit state; the fall-through branch without a batch is shown unreachable.',
-   note=TRUST + 'Assumed contracts: evaluate_likelihood increments n_like by the number of points (body: C03), abstract Bound API returns points in the cube (C07). '
+        'already reached; run() returns exactly the success predicate of its exit state; the fall-through branch without a batch is shown unreachable. Support (units shared with C07): '
+        'UnitCube.sample and NautilusBound.sample (serial and pool, periodic or not) return rows inside the unit cube, and NautilusBound.compute builds the outer union restricted to it.',
+   note=TRUST + 'Assumed contracts: evaluate_likelihood increments n_like by the number of points (body: C03); the Sampler proofs use the abstract Bound API, which the support units show the two '
+        'concrete classes to implement. The counter across a resume is the persisted n_like (C05). '
         'time() is a fresh real per call. n_eff is modelled as a deterministic function of the three arrays it reads.',
    tech='contract-based deductive verification: loop invariants + per-iteration step contracts, z3', ref='7 C10'),
  'C11': dict(
@@ -117,7 +121,9 @@ CLAIMED = {
         'shell_association: C01); write() and write_shell_update() leave the sampler object untouched (they only talk to the file); NautilusPool.map returns the ordered-map primitive; '
         'syntactic obligations over the whole package AST: no global numpy.random, wall clock only in the run() timeout guard, estimators/generators explicitly seeded, every bound '
         'constructor receives the shared generator, `if verbose:` blocks only print; evaluate_likelihood (scalar, vectorised, pooled - every combination is one path of the same body) returns '
-        'the user likelihood / blob of every row of the batch and leaves the caller\'s batch untouched whatever the user transform does to the array it is handed, so the mode is invisible.',
+        'the user likelihood / blob of every row of the batch and leaves the caller\'s batch untouched whatever the user transform does to the array it is handed, so the mode is invisible; '
+        'in the Sampler class the generator is referenced only by __init__, posterior, sample_shell, add_bound and (read-only) the two writers, and the likelihood pool only in __init__ and '
+        'evaluate_likelihood while every `pool=` argument is the sampler pool - so neither an accessor nor the size of the likelihood pool can change the random stream.',
    note=TRUST + 'h5py / pathlib objects are effect-free sinks (they hold no reference to the sampler); Pool.map / dask gather(map) ordered and BLAS/sklearn deterministic are assumed contracts '
         'of dependencies; print_status and shell_bound_occupation are outside the subset: bounded runtime interleaving check only. The composition to "bit-identical runs" is the '
         'determinism argument of DESIGN.md (not machine-checked).',
@@ -130,12 +136,12 @@ CLAIMED = {
         'composition step is argued in DESIGN.md, not machine-checked. Runtime monitor (replay leg) checks the toggle concretely.',
    tech='contract-based deductive verification: frame conditions + loop step contracts, z3', ref='7 C12'),
  'C13': dict(
-   text='Deductive proof on the real AST of Union.split / trim / sample (reset inlined): the record invariant InvU (one member, point set, volume and may-split flag per '
+   text='Deductive proof on the real AST of Union.compute / split / trim / sample (reset inlined): the record invariant InvU (one member, point set, volume and may-split flag per '
         'ellipsoid; volumes current; every member has more points than dimensions; an unblocked member has at least 2*n_points_min points) is preserved on every exit of every '
-        'operation, hence under any operation order of any length; a successful split yields two clusters of at least n_points_min points that partition the points of the split '
+        'operation and established by compute (one member holding all construction points, empty cache, zero counters, unit-cube restriction exactly when requested, the given generator), hence it holds after any operation order of any length; a successful split yields two clusters of at least n_points_min points that partition the points of the split '
         'member and whose summed volume does not exceed it, for an ARBITRARY responsibility matrix (the GMM is havoc); a refused operation leaves members, points and volumes '
         'unchanged; no numpy operation can raise (length/shape/index obligations).',
-   note=TRUST + 'Member bounds are abstract (compute needs more rows than dimensions; C07). Counting facts of a[idx]=v, bincount and argsort are library axioms. Bounded leg: '
+   note=TRUST + 'Member bounds are abstract (compute needs more rows than dimensions, a precondition of Union.compute here; C07). Counting facts of a[idx]=v, bincount and argsort are library axioms. Bounded leg: '
         'operation words up to length 3/4 on three point sets against the real Union.',
    tech='contract-based deductive verification: representation invariant over all exits, z3', ref='7 C13'),
  'C14': dict(
